@@ -2,3 +2,6 @@ import Wpull.Py.Basic
 import Wpull.Proto
 import Wpull.Ftp
 import Wpull.FtpDriver
+import Wpull.HttpWirePy
+import Wpull.HttpWire
+import Wpull.HttpWireDriver
